@@ -893,3 +893,21 @@ pub fn tokio_context() -> &'static tokio::runtime::Runtime {
             .expect("tokio runtime")
     })
 }
+
+/// The library allocates read/write buffers of up to 256 KiB per association. glibc serves such sizes
+/// with mmap/munmap, and thousands of executions per second on 16 threads then serialise on the
+/// address-space lock. Re-exec once with malloc thresholds that keep these blocks in the arenas.
+pub fn tune_allocator() {
+    if std::env::var_os("MALLOC_MMAP_THRESHOLD_").is_some() {
+        return;
+    }
+    use std::os::unix::process::CommandExt;
+    if let Ok(exe) = std::env::current_exe() {
+        let _ = std::process::Command::new(exe)
+            .args(std::env::args_os().skip(1))
+            .env("MALLOC_MMAP_THRESHOLD_", "1073741824")
+            .env("MALLOC_TRIM_THRESHOLD_", "4294967295")
+            .exec();
+        // exec failed: carry on untuned
+    }
+}
